@@ -1031,6 +1031,14 @@ impl HttpProxy {
             })
     }
 
+    /// Token (slab key of the `ListenSession`) of the listener at this address.
+    pub fn listener_token(&self, address: &SocketAddr) -> Option<Token> {
+        self.listeners
+            .iter()
+            .find(|(_, listener)| listener.borrow().address == *address)
+            .map(|(token, _)| *token)
+    }
+
     pub fn give_back_listeners(&mut self) -> Vec<(SocketAddr, MioTcpListener)> {
         self.listeners
             .iter()
